@@ -58,6 +58,10 @@ type Case struct {
 	// NonExecSource (install-dir): the only candidate of the source directory lacks the executable
 	// bit (the installer sets it before it asks for the metadata)
 	NonExecSource bool `json:"nonExecSource,omitempty"`
+	// Neighbours (plain names, install): the plugin is installed already, and beside it live other
+	// plugins whose names are the judged name with a suffix an "atomic replace" might use for its own
+	// purposes (.old, .new, .bak, .tmp, ~, .orig): installing <name> touches <root>/<name> only
+	Neighbours bool `json:"neighbours,omitempty"`
 }
 
 // single reports whether name is a single path component (the statement's criterion).
@@ -333,6 +337,13 @@ func check(c Case) (skip string, key string, msg string) {
 			w.plant(c.Name) // decoys where an unvalidated clean-up / copy would act
 		} else if c.Symlinked {
 			w.plantLink(c.Name, c.LinkTarget)
+		} else if c.Neighbours {
+			for _, sfx := range []string{"", ".old", ".new", ".bak", ".tmp", "~", ".orig"} {
+				n := c.Name + sfx
+				os.MkdirAll(filepath.Join(w.root, n), 0o755)
+				os.WriteFile(filepath.Join(w.root, n, "notation-"+n), script(w.marker, n), 0o755)
+				os.WriteFile(filepath.Join(w.root, n, "data.txt"), []byte("belongs to "+n), 0o644)
+			}
 		}
 		before = snap()
 		path := source
@@ -478,6 +489,7 @@ func TestC16_Names(t *testing.T) {
 			c.Alone = c.Name != "installed" && rapid.IntRange(0, 2).Draw(rt, "alone") == 0
 		}
 		c.NonExecSource = c.Op == "install-dir" && rapid.Bool().Draw(rt, "nonExecSource")
+		c.Neighbours = strings.HasPrefix(c.Op, "install") && plainForSure(c.Name) && !c.Symlinked && rapid.Bool().Draw(rt, "neighbours")
 		skip, key, msg := check(c)
 		cl := []string{"op=" + c.Op, "namekind=" + kind, fmt.Sprintf("depth=%d", c.Depth)}
 		if c.Symlinked {
@@ -485,6 +497,9 @@ func TestC16_Names(t *testing.T) {
 			if c.LinkTarget == "empty" {
 				cl = append(cl, "symlink-target-without-executable")
 			}
+		}
+		if c.Neighbours {
+			cl = append(cl, "install-over-existing-with-suffixed-neighbours")
 		}
 		if c.NonExecSource {
 			cl = append(cl, "install-dir-source-without-executable-bit")
@@ -503,7 +518,7 @@ func TestC16_Names(t *testing.T) {
 		if skip != "" {
 			cl = []string{"skipped=" + skip, "namekind=" + kind}
 		}
-		rec.Case(cl, skip == "" && !plainForSure(c.Name), stats.Fingerprint(c.Name, c.Depth, c.Op, c.Symlinked, c.LinkTarget, c.Alone, c.NonExecSource), func() any { return c })
+		rec.Case(cl, skip == "" && !plainForSure(c.Name), stats.Fingerprint(c.Name, c.Depth, c.Op, c.Symlinked, c.LinkTarget, c.Alone, c.NonExecSource, c.Neighbours), func() any { return c })
 		if key == "harness" {
 			rt.Fatalf("harness: %s", msg)
 		}
